@@ -14,7 +14,7 @@ from ..core import g_list, g_nat, g_opt, g_pair, g_str
 from ..driver import Prop
 from .c01 import g_wtable
 
-SHEETS = ["Sheet1", "data", "in put", "Æ1", "x-2", "second"]
+SHEETS = ["Sheet1", "data", "in put", "Æ1", "x-2", "second", "Sheet"]      # "Sheet" is the title of openpyxl's own default sheet
 CUSTOM_STYLE = {"table_name": {"font": {"bold": True}, "fill": {"color": "D9D9D9"}},
                 "values": {"alignment": {"horizontal": "center"}}, "units": {"font": {"italic": True}}}
 
